@@ -14,7 +14,7 @@ The four outcomes are checked as control-flow obligations on the loop nest:
 function as compiled; no execution is involved.
 """
 from . import mir
-from .base import inst, OK, VIOLATION, UNDECIDED, strip
+from .base import verdict_of, errtext, inst, OK, VIOLATION, UNDECIDED, strip
 from .facts import CheckerError
 from .mir import show
 
@@ -86,7 +86,7 @@ def run(prog):
     # (c)
     errs = []
     if neg_false is None:
-        errs.append("unassigned-literal branch not recognised")
+        errs.append("?unassigned-literal branch not recognised")
     else:
         reach = cfg.reachable_from(neg_false, avoid={h_in})
         muls = [c for c in te.calls if c.bb in reach and c.callee.name in MULS]
@@ -94,8 +94,8 @@ def run(prog):
             errs.append("an unassigned literal's prime is not multiplied into the clause product")
         elif not any(any(x[0] == "mu" for x in mir.subterms(a)) for c in muls for a in c.args):
             errs.append("the product at line %d does not accumulate (no loop-carried operand)" % muls[0].line)
-    out.append(inst("HS", "%s:unassigned-literal-multiplied" % fn.npath, VIOLATION if errs else OK, fn, None,
-                    "; ".join(errs) if errs else "clause product *= prime of each unassigned literal"))
+    out.append(inst("HS", "%s:unassigned-literal-multiplied" % fn.npath, verdict_of(errs), fn, None,
+                    errtext(errs) if errs else "clause product *= prime of each unassigned literal"))
     # (d)
     errs = []
     sw = fn.blocks[h_in]["term"]
@@ -106,7 +106,7 @@ def run(prog):
             if tg not in cfg.loop_headers[h_in]:
                 exit_t = tg
     if exit_t is None:
-        errs.append("exit of the literal loop not recognised")
+        errs.append("?exit of the literal loop not recognised")
     else:
         reach = cfg.reachable_from(exit_t, avoid={h_out})
         muls = [c for c in te.calls if c.bb in reach and c.callee.name in MULS]
@@ -115,8 +115,8 @@ def run(prog):
             errs.append("after the last literal the clause product is not multiplied into the accumulator")
         elif not any(any(x[0] == "mu" and x[1] == h_in for x in mir.subterms(a)) for c in muls for a in c.args):
             errs.append("the accumulator update at line %d does not use the clause product" % muls[0].line)
-    out.append(inst("HS", "%s:clause-product-accumulated" % fn.npath, VIOLATION if errs else OK, fn, None,
-                    "; ".join(errs) if errs else "accumulator[i] *= clause product, for every clause that reaches the end of its literal loop"))
+    out.append(inst("HS", "%s:clause-product-accumulated" % fn.npath, verdict_of(errs), fn, None,
+                    errtext(errs) if errs else "accumulator[i] *= clause product, for every clause that reaches the end of its literal loop"))
     out.append(one_numbering(prog))
     return out
 
